@@ -31,7 +31,11 @@ def gen_random(rng, max_c=8):
         else:
             sblocks.append({'kind': 'input', 'init': rng.choice([True, False, 0, 1, 2, None, 'a'])})
         if rng.random() < 0.25:
-            sblocks[-1]['sink'] = rng.choice([['every'], ['out'], ['every', 'out']])
+            sblocks[-1]['sink'] = rng.choice([['every'], ['out'], ['every', 'out'], ['unk'], ['unk', 'every']])
+            if i >= ns - nsec and 'unk' in sblocks[-1]['sink']:
+                # a feedback target changes inside the simulator task: there the unknown event would reach the
+                # simulator itself (fatal by design); only externally driven blocks get such an event
+                sblocks[-1]['sink'] = ['out']
     primary = list(range(ns - nsec))
     secondary = list(range(ns - nsec, ns))
     nc = rng.randint(1, max_c)
